@@ -1230,7 +1230,10 @@ def case(draw, n_instances=3, n_paths=16):
     spec = draw(schema_spec())
     insts = [draw(instance(spec)) for _ in range(n_instances)]
     paths = [draw(path_expr(spec)) for _ in range(n_paths)]
-    tree = draw(st.sampled_from(['et', 'et-doc', 'lxml', 'lxml-doc']))
+    # lxml documents also with a comment / processing instruction before and/or after the document element
+    # (ElementTree cannot hold them); 'lxml-sib' = the lxml element itself, with such siblings, is handed over
+    tree = draw(st.sampled_from(['et', 'et-doc', 'lxml', 'lxml-doc', 'lxml-before-doc', 'lxml-after-doc',
+                                 'lxml-both-doc', 'lxml-sib']))
     tw = draw(twin_spec(spec))
     return {'spec': spec, 'instances': insts, 'paths': paths, 'tree': tree,
             'twin': {'spec': tw, 'instances': [draw(instance(tw))]}}
